@@ -13,10 +13,14 @@ inductive ErrKind
   | invalidSegmentCount | cyclicSubgroups
   deriving DecidableEq, Repr
 
-/-- custom options in insertion order; the last pair for a key wins (`HashMap::extend`). -/
-abbrev Opts := List (Str × Str)
+/-- the custom-option *map* (`HashMap<String, String>`): only ever looked up, never iterated. -/
+abbrev Opts := Str → Option Str
 
-def optGet (o : Opts) (k : Str) : Option Str := lookupLast k o
+def optGet (o : Opts) (k : Str) : Option Str := o k
+
+/-- the map built by `add_custom_options` from pairs in insertion order: the last pair for a
+key wins (`HashMap::extend`). -/
+def optsOfList (l : List (Str × Str)) : Opts := fun k => lookupLast k l
 
 /-- `Path::components()` rendered as texts: `/` for the root, a leading `.` kept, interior
 and trailing `.` and empty pieces dropped, `..` kept. -/
